@@ -112,10 +112,10 @@ def check_fill(repo, rep, tier):
 
 
 # ------------------------------------------------------------------ store append / update rules
-def make_store(repo, it: Interp, n_rows: int, t0: int, timeframe="1m"):
+def make_store(repo, it: Interp, n_rows: int, t0: int, timeframe="1m", minutes=None):
     dna_mod, dna_cls = repo.module(DNA), repo.cls(DNA, "DynamicNumpyArray")
     arr = it.instantiate(ClassV(dna_cls, dna_mod), [(num(8), num(6))], {})
-    for k in range(n_rows):
+    for k in (range(n_rows) if minutes is None else minutes):
         it.call(it.getattr(arr, "append"), [Arr([num(t0 + k * MIN)] + [A(f"s{k}_{j}") for j in range(1, 6)])], {})
     cs = W.obj_of(repo, CANDLES_STATE, "CandlesState", "store.candles", {"storage": {f"Sandbox-BTC-USDT-{timeframe}": arr},
                                                                          "are_all_initiated": False, "initiated_pairs": {}})
@@ -142,10 +142,18 @@ def check_add_candle(repo, rep):
         for k_ in sorted({0, 1, 2, n_ - 3, n_ - 2} & set(range(n_ - 1))):
             cases.append((f"older-stored|n={n_}|k={k_}", n_, k_))
         cases.append((f"older-absent|n={n_}", n_, -2))
+    # stores that are strictly increasing but not evenly spaced (a live feed that missed minutes; nothing in the store's contract
+    # promises even spacing): every stored candle but the last is replaced in place
+    gapped = {}
+    for mins in ([0, 1, 2, 4, 5], [0, 2, 3], [0, 1, 5, 6, 7], [0, 3], [0, 1, 2, 3, 4, 5, 6, 7, 9, 10, 11, 12, 13, 14, 15, 16, 17, 18, 19, 20, 21, 22, 24]):
+        for k_ in (mins[:-1] if len(mins) < 8 else [0, 1, 7, 9, 22]):
+            nm = f"older-stored|gapped={','.join(map(str, mins)) if len(mins) < 8 else '0..24 without 8, 23'}|k={k_}"
+            cases.append((nm, len(mins), k_))
+            gapped[nm] = mins
     for name, n, k in cases:
         def mk(dec):
             it = Interp(repo, stubs=W.base_stubs(), decisions=dec)
-            cs = make_store(repo, it, n, t0)
+            cs = make_store(repo, it, n, t0, minutes=gapped.get(name))
             cnd = Arr([num(t0 + k * MIN), A("no"), A("nc"), A("nh"), A("nl"), A("nv")])
             it.cnd = cnd
             return it, lambda it: it.call(it.getattr(cs, "add_candle"), [cnd, "Sandbox", "BTC-USDT", "1m"],
@@ -178,7 +186,7 @@ def check_add_candle(repo, rep):
             if probs:
                 rep.violation(rid, f"add_candle|{name}", f"add_candle case {name}: " + "; ".join(probs))
             rep.instance(rid, name, {"case": name, "stored_minutes": [(t - t0) // MIN for t in ts]})
-    rep.floor(rid, 30)
+    rep.floor(rid, 45)
 
 
 def check_add_multiple(repo, rep):
